@@ -148,7 +148,11 @@ def o6(h, st):
     c = h.call(SM, "get_reference_circuit", n, ne, mapping, utd, spin)
     nq = n - 2 if mapping == "SCBK" else n
     h.check("width", h.getattr(c, "width") == nq)
-    h.check("only X gates", all(g.name == "X" and g.control is None for g in c._gates))
+    ok_gates = all(g.name == "X" and g.control is None and len(g.target) == 1 and 0 <= g.target[0] < nq for g in c._gates)
+    h.check("only X gates, inside the register", ok_gates, detail=str([(g.name, g.target) for g in c._gates][:6]))
+    if not ok_gates:
+        h.done()
+        return
     bits = [0] * nq
     for g in c._gates:
         bits[g.target[0]] ^= 1
